@@ -65,7 +65,7 @@ def run(ctx):
         for st in speech_run.STYLES:
             for v in speech_run.VERBOSITY:
                 cfgs.append({"Language": l, "SpeechStyle": st, "Verbosity": v, **dict(rng.choice(CAP_PREFS))})
-    n_random = 10 if ctx.tier == "quick" else 150
+    n_random = 20 if ctx.tier == "quick" else 200
     oracle_fail, disagreements = [], []
     n_speech = n_entries = n_nav = n_overview = 0
     kinds = {}
@@ -94,7 +94,7 @@ def run(ctx):
             d = dirty(sp["v"], src)
             if d:
                 oracle_fail.append({"why": "speech contains " + ", ".join(d), "config": cfg, "xml": src, "speech": sp["v"], "lines": it["lines"]})
-            elif visible and not re.search(r"\w", sp["v"]):
+            elif visible and not re.sub(r"[\s,;.]", "", sp["v"]):      # (a character of no table is passed through as itself: that is content)
                 oracle_fail.append({"why": "speech has no words for an expression with visible content", "config": cfg, "xml": src, "speech": sp["v"], "lines": it["lines"]})
         # overview and navigation speech for a few expressions of this configuration
         sub = xmls[:4]
